@@ -635,8 +635,16 @@ func c13CommitPoints(ctx *Ctx, i int) {
 // peer set and a trial balance each) is opened by the current driver: every nonce of the old
 // table must be gone, and nothing else may change.
 func c13MigrateLarge(ctx *Ctx, i int, n int) {
-	st := newStore(drvBdg)
-	defer func() { os.RemoveAll(st.dir) }()
+	// production-sized tables: the harness's small-table options would make badger refuse the
+	// migration's single transaction (ErrTxnTooBig) for a reason that has nothing to do with vipnode
+	dir, _ := ioutil.TempDir("", "vharness-big")
+	defer os.RemoveAll(dir)
+	bigOpts := badger.DefaultOptions(dir).WithLogger(nil).WithSyncWrites(false)
+	s0, err := retryOpen(badgerstore.Open, bigOpts)
+	if err != nil {
+		fatal("badger open: %v", err)
+	}
+	st := &openStore{Store: s0, drv: drvBdg, dir: dir}
 	now := time.Now()
 	nonce := now.UnixNano() - 5e6
 	id := func(k int) store.NodeID { return store.NodeID(fmt.Sprintf("%0128x", 0xabc000+k)) }
@@ -670,28 +678,34 @@ func c13MigrateLarge(ctx *Ctx, i int, n int) {
 		})
 		return m, nonces
 	}
-	db := st.Store.(interface{ VerifDB() *badger.DB }).VerifDB()
-	// format 1 kept nonces without expiry: rewrite them so, and stamp the version
-	db.Update(func(txn *badger.Txn) error {
+	db := s0.VerifDB()
+	// format 1 kept nonces without expiry: rewrite them so (in batches), and stamp the version
+	for lo := 0; lo < n; lo += 100 {
+		if err := db.Update(func(txn *badger.Txn) error {
+			for k := lo; k < lo+100 && k < n; k++ {
+				var b bytes.Buffer
+				gob.NewEncoder(&b).Encode(&nonce)
+				if err := txn.Set([]byte("vip:nonce:"+string(id(k))), b.Bytes()); err != nil {
+					return err
+				}
+			}
+			return nil
+		}); err != nil {
+			fatal("rewriting nonces: %v", err)
+		}
+	}
+	if err := db.Update(func(txn *badger.Txn) error {
 		var buf bytes.Buffer
 		one := 1
 		gob.NewEncoder(&buf).Encode(&one)
-		if err := txn.Set([]byte("vip:version"), buf.Bytes()); err != nil {
-			return err
-		}
-		for k := 0; k < n; k++ {
-			var b bytes.Buffer
-			gob.NewEncoder(&b).Encode(&nonce)
-			if err := txn.Set([]byte("vip:nonce:"+string(id(k))), b.Bytes()); err != nil {
-				return err
-			}
-		}
-		return nil
-	})
+		return txn.Set([]byte("vip:version"), buf.Bytes())
+	}); err != nil {
+		fatal("stamping version: %v", err)
+	}
 	before, nb := dump(db)
 	st.Store.Close()
 	var mon []string
-	s, err := retryOpen(badgerstore.Open, badgerOpts(st.dir))
+	s, err := retryOpen(badgerstore.Open, bigOpts)
 	if err != nil {
 		mon = append(mon, "c13-reopen-after-kill-failed: opening the format-1 database failed: "+err.Error())
 		ctx.Emit(Case{I: i, Kind: "migrate-large", Desc: map[string]interface{}{"mode": "migrate-large", "identities": n}, Monitor: mon})
